@@ -91,6 +91,18 @@ Theorem C16_api_soft_errors : forall p l x,
 Proof. exact api_soft_errors. Qed.
 Print Assumptions C16_api_soft_errors.
 
+(* A proxy serves a sequence of searches. The outcome of each search is a function of THAT search's
+   own replica behaviours (and request) only — whatever searches came before or come after: the k-th
+   outcome of a run is the outcome of searching with the k-th behaviours on a fresh proxy. So every
+   theorem above holds for each search of a sequence: complete iff every shard had an answering
+   replica in THIS search, partial iff some had none and at least one had, IDs = merge over exactly
+   the shards answering in THIS search. *)
+Theorem C16_state_independent : forall sort pre q post st,
+  nth (length pre) (proxy_run sort st (pre ++ q :: post)) (SErr EOther) = search_req sort q
+  /\ proxy_run sort st (pre ++ q :: post) = map (search_req sort) (pre ++ q :: post).
+Proof. intros. split; [apply proxy_run_nth | apply proxy_run_map]. Qed.
+Print Assumptions C16_state_independent.
+
 (* ShuffleReplicas: for EVERY order in which the replicas of a shard are tried, the shard's outcome is
    one of its replicas' own behaviours; and when no replica gives a special refusal, whether the
    shard answers does not depend on the order (it answers iff some replica does). *)
@@ -245,6 +257,20 @@ Example C16_well_behaved_witnessed :
         [(0, [((5,5), 11); ((9,0), 12); ((7,0), 13)]%N); (1, [((4,4), 21); ((8,0), 22)]%N)] = true
   /\ well_behaved [((9,0)%N, 0); ((7,0)%N, 0)] [(0, [((7,0), 13); ((9,0), 12)]%N)] = false.
 Proof. split; vm_compute; reflexivity. Qed.
+
+(* a proxy that remembers, per shard, the position of the replica that answered last and starts the
+   next search there WITHOUT wrapping around is not state independent, and breaks the property:
+   search 1 — replica 0 fails, replica 1 answers; search 2 (rolling restart) — replica 0 is back,
+   replica 1 is down: the shard is reported failed (the tier fails; with a second answering shard the
+   response is partial) although it has an answering replica. The real proxy answers completely. *)
+Example C16_sticky_start_refuted :
+  let s1 := [[(0, BErr); (1, BOk [(9,0)]%N X0)]] in
+  let s2 := [[(0, BOk [(9,0)]%N X0); (1, BErr)]] in
+  sticky_run true [0] [s1; s2] = [TOk false [(1, [(9,0)]%N)] [X0]; TFail]
+  /\ map (search_stores true) [s1; s2] = [TOk false [(1, [(9,0)]%N)] [X0]; TOk false [(0, [(9,0)]%N)] [X0]]
+  /\ sticky_run true [0; 0] [s1 ++ [[(2, BOk [(8,0)]%N X0)]]; s2 ++ [[(2, BOk [(8,0)]%N X0)]]]
+     = [TOk false [(1, [(9,0)]%N); (2, [(8,0)]%N)] [X0; X0]; TOk true [(2, [(8,0)]%N)] [X0]].
+Proof. repeat split; vm_compute; reflexivity. Qed.
 
 (* ---------------------------------------------------------------- the code before 2959d55 *)
 (* DESIGN section 9 #11: two streams both starting with unrequested documents: panic *)
